@@ -59,8 +59,8 @@ def verify(seed):
             failed_names = re.findall(r'FAILED (\S+)', out)
             res['suite']['failed_names'] = failed_names
             res['suite_ok'] = res['suite']['passed'] == 298 and set(n.split('::')[-1] for n in failed_names) <= {'test_xdoc_console_script_location', 'test_xdoc_console_script_exec'}
-        want_patched = 0 if name.startswith(('ref-', 'rf3-', 'rf4-', 'rf5-', 'rf6-', 'rf7-', 'rf8-')) else 1      # refactorings keep behaviour: the demo digest must be unchanged
-        res['kind'] = 'refactoring' if name.startswith(('ref-', 'rf3-', 'rf4-', 'rf5-', 'rf6-', 'rf7-', 'rf8-')) else 'break'
+        want_patched = 0 if name.startswith(('ref-', 'rf3-', 'rf4-', 'rf5-', 'rf6-', 'rf7-', 'rf8-', 'rf9-')) else 1      # refactorings keep behaviour: the demo digest must be unchanged
+        res['kind'] = 'refactoring' if name.startswith(('ref-', 'rf3-', 'rf4-', 'rf5-', 'rf6-', 'rf7-', 'rf8-', 'rf9-')) else 'break'
         res['confirmed'] = bool(res.get('apply', {}).get('rc') == 0 and res.get('imports') and res['demo_clean']['rc'] == 0 and res.get('demo_patched', {}).get('rc') == want_patched and res.get('suite_ok'))
     finally:
         sh('git -C %s worktree remove --force %s' % (REPO, wt))
